@@ -81,7 +81,8 @@ func c14Case(rng *rand.Rand) cliCase {
 		return cliCase{prog: "BEGINFILE { print 'bf', $file } { print $file, $ } ENDFILE { print 'ef', $file } END { print 'end' }", inputs: ins, kind: "jsonl-files"}
 	default:
 		// programs that modify $ in pattern rules and do not inspect it in BEGINFILE/ENDFILE
-		progs := []string{"{ $.m = 1 }", "{ $.count = $.count + 1; print 'seen' }", "{ $[0] = 'first' }", "{ print $ is array, $ is object; $.tag = 't' }", "{ }", "{ $.x.y = [1] ; $.list = 0 }", "{ c++ } END { print c }", "{ if ($ is array) { $.push(9) } else { $.k = 9 } }"}
+		progs := []string{"{ $.m = 1 }", "{ $.count = $.count + 1; print 'seen' }", "{ $[0] = 'first' }", "{ print $ is array, $ is object; $.tag = 't' }", "{ }", "{ $.x.y = [1] ; $.list = 0 }", "{ c++ } END { print c }", "{ if ($ is array) { $.push(9) } else { $.k = 9 } }",
+			"{ print $; $.seen = 1 }", "{ print json($.list), $.n; $.list = 0; $.n = 'changed' }", "{ print $.length(), $ is object; if ($ is object) { $.a = null; $.extra = [1] } }"}
 		n := rng.IntN(3)
 		var sels []string
 		for i := 0; i < n; i++ {
@@ -196,6 +197,17 @@ func c14Run(c *Case) {
 	}
 	for len(cc.sels) < nsel {
 		cc.sels = append(cc.sels, c14SelPool[rng.IntN(len(c14SelPool))])
+	}
+	if cc.roSel && nsel == 2 {
+		// overlapping selections: the second pass looks at what the first pass may have stored into
+		switch rng.IntN(4) {
+		case 0:
+			cc.sels[1] = cc.sels[0]
+		case 1:
+			cc.sels[0], cc.sels[1] = []string{"$", "$.a", "$.list", "$.o"}[rng.IntN(4)], "$"
+		case 2:
+			cc.sels[0], cc.sels[1] = "$", []string{"$", "$.a", "$.list", "$.o", "$.n"}[rng.IntN(5)]
+		}
 	}
 	cellName := fmt.Sprintf("%s/%s%d/sel%d/o=%s", map[bool]string{false: "inline", true: "-f"}[cfg.progFile], cfg.input, len(cc.inputs), nsel, cfg.omode)
 	c.Count("cell:" + cellName)
@@ -322,7 +334,7 @@ func c14Run(c *Case) {
 		c.Held()
 	}
 	// R6: `-r A -r B` processes the value once per selector, each starting from the document as read
-	if cc.roSel && len(cc.sels) == 2 && len(cc.inputs) == 1 && !strings.Contains(cc.prog, "END") && !strings.Contains(cc.prog, "c++") && !strings.Contains(cc.prog, "count") {
+	if cc.roSel && len(cc.sels) == 2 && len(cc.inputs) == 1 && len(splitTopLevel(cc.inputs[0])) == 1 && !strings.Contains(cc.prog, "END") && !strings.Contains(cc.prog, "c++") && !strings.Contains(cc.prog, "count") {
 		noO := cfg
 		noO.omode = ""
 		a, b := cc, cc
@@ -487,9 +499,9 @@ func init() {
 		Rule: "each case is a (program, inputs, selectors) triple from the pools of C02/C07/C09 plus failing programs, malformed inputs, JSONL, root-modifying programs and program texts with raw CR LF / tab / control bytes inside literals, run in one cell of the 54-cell configuration matrix {inline, -f} x {stdin, 1 file, 2-3 files} x {0, 1, 2 -r} x {no -o, -o -, -o FILE} (cells are visited round-robin by case index). Relations checked on the real binary: (R1) stdout, -o bytes and exit class equal the library's result on the same tree (files and selectors in the same order; -o with several inputs refused); (R2) -f FILE == inline; (R3) stdin == the same bytes in a file for programs that do not mention $file; (R4) the bytes `-o -` prints after the program's own output are exactly what `-o FILE` writes; (R5) `-r E` == `BEGINFILE { $ = E }` for side-effect-free selectors (members present / missing / out of range, method calls, literals) and programs that modify $ only in pattern rules, including what -o writes, also over several files and several values per input; (R6) two selectors print what each prints alone, one after the other, and -o writes what the last alone writes; (R7) for programs without state across values, a run over several files / several values per input / several selectors prints exactly the concatenation of the runs value by value (each processed once, in order). Enumerated: 16 error paths and orderings (missing program / input files, directory as input, unwritable -o, -o with two files, -o without any value, file and selector order, error after output) and strace-injected EIO. Non-trivial = the case produces output or an -o document; distinct by cell+program+inputs+selectors.",
 		NumCases: func(tier string) int {
 			if tier == "thorough" {
-				return 1 + 54*400
+				return 1 + 54*1000
 			}
-			return 1 + 54*20
+			return 1 + 54*60
 		},
 		Run:           c14Run,
 		MinConclusive: func(tier string) int { return 600 },
